@@ -223,7 +223,7 @@ def run_case(case):
                     v = (a / nv * mn) @ M
                 got = outs[i]
                 tol = 1e-9 * max(1.0, float(np.abs(v).max()))
-                if float(np.abs(got - v).max()) > tol:
+                if not (float(np.abs(got - v).max()) <= tol):  # NaN-safe
                     viol.append(dict(sig="schedule-mismatch", cls=f"schedule:k={k}:pos={'recompute' if j % k == 0 else 'reuse'}",
                                      msg=f"{hd}: call #{i} (position {j} since reset, k={k}) returned {got.tolist()}, expected "
                                          f"clip(alpha_{j // k}) @ M = {v.tolist()} with alpha={a.tolist()}"[:700]))
